@@ -18,7 +18,7 @@ NoObs == [kind |-> "none", line |-> 0]
 EmptyLedger(scn) ==
   [ scn |-> scn, grp |-> "", spv |-> 0, gk |-> "", swr |-> 5000, t |-> 0,
     open |-> <<>>, calls |-> <<>>, sent |-> <<>>, tk |-> <<>>, eff |-> <<>>,
-    kv |-> <<>>, ever |-> {}, inval |-> {}, namedxo |-> {}, replacedFor |-> {},
+    kv |-> <<>>, ever |-> {}, inval |-> {}, namedxo |-> {}, replacedFor |-> {}, replacedSure |-> {},
     faulted |-> FALSE, hardfault |-> {}, pairs |-> {}, varies |-> {}, nreq |-> 0,
     obsq |-> <<>>, canon |-> <<>>, canongrp |-> "", swrx |-> {}, served |-> <<>>, fuzzy |-> {}, vu |-> {}, conc |-> FALSE, hadconc |-> FALSE,
     last |-> NoObs ]
@@ -136,6 +136,9 @@ OnOp(L, e, line) ==
                    /\ VariantMatch(L.eff[p[1]].rep, L.tk[p[1]].rq, L.tk[N].rq) }
   IN [ L EXCEPT !.t = e.t, !.kv = kv2, !.ever = L.ever \cup new,
          !.replacedFor = L.replacedFor \cup repl2,
+         \* which stored response a new one replaces is only certain when a single older one matched the request
+         !.replacedSure = IF Cardinality({p[1] : p \in repl2} \cap StoredToks(L)) = 1 /\ Cardinality({p[1] : p \in repl2}) = 1
+                            THEN L.replacedSure \cup repl2 ELSE L.replacedSure,
          !.vu = L.vu \cup { L.tk[p[1]].rq.u : p \in repl2 },
          !.last = [kind |-> "op", line |-> line, e |-> e, toks |-> toks, tags |-> tags] ]
 
@@ -315,7 +318,7 @@ M09(L) == A09(L) => Reused(L)
 A08(L) == IsRet(L) /\ L.last.fromStore
 M08(L) ==
   /\ (A08(L) /\ ~L.last.val304 /\ ~L.faulted =>
-        ~(\E p \in L.replacedFor : p[1] = L.last.e.tok /\ p[2] = L.last.rq.sel /\ p[3] < L.last.o.seq))
+        ~(\E p \in L.replacedSure : p[1] = L.last.e.tok /\ p[2] = L.last.rq.sel /\ p[3] < L.last.o.seq))
   \* a freshened response that must be reused carries the 304's fields
   /\ (A09(L) /\ Reused(L) =>
         LET R == L.last  E == R.effBefore[R.e.tok] IN
